@@ -54,7 +54,8 @@ class InterpolateBetweenRestarts(ConvergenceController):
                 if level.f[0] is None:
                     level.f[0] = level.prob.dtype_f(level.prob.init)
 
-                for m in range(len(level.u)):
+                # only the values at the collocation nodes are an initial guess, the initial value of the step is not
+                for m in range(1, len(level.u)):
                     level.u[m][:] = self.status.u_inter[i][m].reshape(level.prob.init[0])[:]
                     level.f[m][:] = self.status.f_inter[i][m].reshape(level.f[m].shape)[:]
 
